@@ -334,6 +334,61 @@ func C19(rep *ev.Reporter, tier string) {
 	}
 	// ---- the same laws through GRL conditions over typed fact fields ----
 	grlN := c19GRL(rep, tier, report)
+	// times and strings through GRL conditions (F.T ? G.T, F.S ? G.S)
+	{
+		ops := []string{"<", "==", ">", "<=", ">=", "!="}
+		var rules []*grl.Rule
+		for oi, op := range ops {
+			rules = append(rules, grl.R(fmt.Sprintf("t%d", oi), nil, "F.T "+op+" G.T", "F.I2 = 1"))
+			rules = append(rules, grl.R(fmt.Sprintf("s%d", oi), nil, "F.S "+op+" G.S", "F.I2 = 1"))
+		}
+		if b, err := hx.Build(hx.NewProgram(rules, grl.Style{})); err == nil {
+			run := func(id string, set func(f, g *facts.Fact), cmp int, fam string) {
+				if rep.ReplayFilter != "" && rep.ReplayFilter != id {
+					return
+				}
+				w := ref.NewWorld()
+				f, g := facts.New(), facts.New()
+				set(f, g)
+				w.Objs["F"], w.Objs["G"] = f, g
+				kb, err := b.Instance()
+				if err != nil {
+					return
+				}
+				res := hx.Fetch(kb, w, false, 0)
+				got := map[string]bool{}
+				for _, n := range res.Names {
+					got[n] = true
+				}
+				p := fam[:1]
+				var o c19Ops
+				o.lt, o.eq, o.gt, o.le, o.ge, o.ne = got[p+"0"], got[p+"1"], got[p+"2"], got[p+"3"], got[p+"4"], got[p+"5"]
+				m := c19Ops{lt: o.gt, gt: o.lt, le: o.ge, ge: o.le, eq: o.eq, ne: o.ne}
+				grlN += 6
+				if law := c19Laws(o, m, cmp, true); law != "" {
+					report("C19:grl:"+strings.SplitN(law, " ", 2)[0]+":"+fam, fmt.Sprintf("%s: %s", id, law), map[string]interface{}{"case": id})
+				}
+			}
+			for _, a := range times {
+				for _, bb := range times {
+					a, bb := a, bb
+					cmp := 0
+					if a.t.Before(bb.t) {
+						cmp = -1
+					} else if a.t.After(bb.t) {
+						cmp = 1
+					}
+					run("grl/time/"+a.label+"/"+bb.label, func(f, g *facts.Fact) { f.T, g.T = a.t, bb.t }, cmp, "time")
+				}
+			}
+			for _, a := range strs {
+				for _, bb := range strs {
+					a, bb := a, bb
+					run(fmt.Sprintf("grl/string/%q/%q", a, bb), func(f, g *facts.Fact) { f.S, g.S = a, bb }, strings.Compare(a, bb), "string")
+				}
+			}
+		}
+	}
 	rep.Coverage["evaluations"] = apps
 	rep.Coverage["states"] = pairs
 	rep.Coverage["transitions"] = apps
